@@ -163,7 +163,71 @@ def run(ctx):
             ctx.traces_validated += 1
             if line != exp:
                 ctx.disagree("update_to_v23 date", case, model=line, impl=exp)
+    check_v1_fields(ctx)
 
+
+
+def check_v1_fields(ctx):
+    """the ID3v1 block written alongside reflects title, artist, album, year, comment, track and genre within the fixed-width
+    Latin-1 fields of ID3v1: 30 bytes each for title/artist/album, 4 for the year, 28 (v1.1, with track) for the comment"""
+    from mutagen.id3 import ID3, TDRC, TIT2, TPE1, TALB, COMM, TRCK, TCON
+    rng = ctx.rng
+    alpha = "abcdefghijklmnopqrstuvwxyzäöüÆé ÿ"
+    lens = [0, 1, 2, 27, 28, 29, 30, 31, 32, 59, 60, 61]
+    def text(n):
+        t = "".join(rng.choice(alpha) for _ in range(n))
+        return t.strip() or ("x" * n)
+    def lat(t, width):
+        return t.encode("latin-1", "replace")[:width].split(b"\0")[0].decode("latin-1").rstrip()
+    for _ in range(ctx.budget(60, 600)):
+        n_t, n_a, n_l, n_c = (rng.choice(lens) for _ in range(4))
+        title, artist, album, comment = text(n_t), text(n_a), text(n_l), text(n_c)
+        if rng.random() < 0.15:
+            title = "日本" + title          # not Latin-1: replaced character by character
+        track = rng.choice([None, 1, 7, 99, 255])
+        year = rng.choice(["2001", "1999-12-31", "0987", "2020-05-06 12:00"])
+        tag = ID3()
+        if n_t:
+            tag.add(TIT2(encoding=3, text=[title]))
+        if n_a:
+            tag.add(TPE1(encoding=3, text=[artist]))
+        if n_l:
+            tag.add(TALB(encoding=3, text=[album]))
+        if n_c:
+            tag.add(COMM(encoding=3, lang="eng", desc="", text=[comment]))
+        if track is not None:
+            tag.add(TRCK(encoding=0, text=[str(track)]))
+        tag.add(TDRC(encoding=0, text=[year]))
+        tag.add(TCON(encoding=0, text=["Rock"]))
+        ver = rng.choice([3, 4])
+        f = io.BytesIO()
+        case = {"sub": "v1-fields", "title": title, "artist": artist, "album": album, "comment": comment, "track": track,
+                "year": year, "version": ver}
+        def save():
+            if ver == 3:
+                tag.update_to_v23()
+            tag.save(f, v2_version=ver, v1=2)
+        k, r = timed(save, 10)
+        ctx.case(key=("v1", n_t, n_a, n_l, n_c, track, year, ver, title[:4]), nontrivial=True, modelled=False, sample=None)
+        ctx.hist["v1-fields"] += 1
+        if k != "ok":
+            ctx.violation("v1:save-fails", repr(r)[:100], case); continue
+        b = id3spec.decode_id3v1(f.getvalue()[-128:])
+        if b is None:
+            ctx.violation("v1:missing", "v1=2 but no ID3v1 block written", case); continue
+        exp = {"title": lat(title, 30) if n_t else "", "artist": lat(artist, 30) if n_a else "", "album": lat(album, 30) if n_l else "",
+               "year": year[:4]}
+        for key, e in exp.items():
+            if b[key] != e:
+                ctx.violation("v1:" + key, "ID3v1 %s is %r, expected %r (%d-byte field)" % (key, b[key], e, 4 if key == "year" else 30), case)
+        if n_c:
+            c28, c30 = lat(comment, 28), lat(comment, 30)
+            if b["comment"] not in (c28, c30):
+                ctx.violation("v1:comment", "ID3v1 comment is %r, expected %r" % (b["comment"], c28), case)
+        if track is not None and b["track"] != track:
+            ctx.violation("v1:track", "ID3v1 track is %r, expected %r" % (b["track"], track), case)
+        if b["genre"] != 17:
+            ctx.violation("v1:genre", "ID3v1 genre is %r, expected 17 (Rock)" % (b["genre"],), case)
 
 def search(ctx):
     old = ctx.tier; ctx.tier = "thorough"
